@@ -423,6 +423,64 @@ class C12(UDPL):
                   "02e2aef) are not yet explored by the controlled scheduler; OS-level port reuse is not exercised (in-memory socket)")
 
 
+class C17(VSchedCheck):
+    pid = "C17"
+    diff_is_violation = True
+    harness = "ctx"
+    hbin = "h_ctx"
+    model_entry = "c17_replay"
+    instrument = {"netctx/conn.go": "netctx", "netctx/packetconn.go": "netctx", "connctx/connctx.go": "connctx"}
+    quick_n = 6000
+    thorough_n = 240000
+    shards = 12
+    design_ref = "4 (C17), 3.5"
+    technique = ("Coq proof (all interleavings of caller, watcher goroutine, cancellation and data arrival: finite reachable set computed and "
+                 "checked closed inside Coq; conservation over any number of operations by induction) + trace validation of the real netctx/connctx "
+                 "code under a controlled scheduler")
+    level_text = ("Coq theorems over every interleaving of the calling goroutine, the watcher goroutine, cancellation and readiness of the wrapped "
+                  "connection, for any number of consecutive operations: at return the watcher has exited, no forced deadline is left, the byte count is "
+                  "the wrapped operation's, the context's error is reported exactly when the context is over and no byte was transferred; a deadline is "
+                  "forced only after the operation's context ended; the operation blocks only where the wrapped connection blocks and returns within a "
+                  "bounded number of steps once the context is over; bytes reported equal bytes transferred (C17_conservation). Tied to the code by trace "
+                  "validation: the three source files are instrumented from the working tree at check time, all six operations run under a controlled "
+                  "scheduler inside synctest bubbles over an in-memory connection with cancellation (cancel functions and timeouts) injected at every "
+                  "point, the Coq model must follow every logged event and reproduce every reported (n, error class), and the harness checks the "
+                  "property on the implementation's own answers (no leftover deadline, no leaked watcher, no spurious error, no lost or invented bytes, "
+                  "prompt return)")
+    level_note = ("partial: 'promptly' is proved as a step bound under the controlled scheduler, not in wall-clock time; the wrapped connection is an "
+                  "in-memory net.Conn/net.PacketConn that honours deadlines (a real socket or a pipe is not exercised); byte counts are abstracted to "
+                  "zero / some in the model (exact bytes are compared by the harness oracle); read and write directions are explored separately; "
+                  "Close racing with operations is not modelled; vrewrite, vsched and synctest are trusted")
+    rule = ("1-4 consecutive operations of one of the six kinds (netctx Conn Read/Write, PacketConn ReadFrom/WriteTo, connctx Read/Write) on one "
+            "wrapper; per operation 6-20 scheduling decisions with cancellation (cancel function or elapsed timeout) and readiness of the wrapped "
+            "connection inserted at random points (together, apart, or absent), occasionally a second operation started early so that it competes for "
+            "the direction's mutex and cancellations before the lock is taken; then run to quiescence, unblocking an operation that waits like the "
+            "wrapped connection by cancelling or delivering; non-trivial = at least one cancellation and 12 model events; distinct = distinct "
+            "(kind, decisions)")
+    trusted = ["tools/vrewrite (source-to-source instrumentation) and harness/vsched (controlled scheduler) and the generated hook files",
+               "testing/synctest (detection of parked/blocked goroutines, virtual clock for context timeouts)",
+               "the in-memory wrapped connection of harness/ctx and the translation of its log into model events"]
+    assumptions = ["the wrapped connection honours SetReadDeadline/SetWriteDeadline as net.Conn documents (a past deadline fails a blocked operation "
+                   "with a timeout; the zero value removes the deadline)", "operations on one direction at a time (read and write directions are independent)"]
+
+    def model_postprocess(self, line, model_obs):
+        return model_obs + "|0"
+
+    def is_nontrivial(self, conf, ops, obs):
+        p = segs(ops)
+        return len(p) >= 12 and "13" in p
+
+    def diff_is_failing_input(self, line):
+        o = segs(split3(line)[2])
+        return len(o) >= 2 and o[-1].strip() not in ("0", "")
+
+    def failing_text(self):
+        return ("the implementation's own answers violate C17: flags (last observation) 1 error with a live context, 2 bytes lost/invented/"
+                "misreported, 4 wrapped connection keeps a deadline after the operation returned, 8 context over but the operation does not return, "
+                "16 wrong error class (context error with n>0, or context over, n=0 and no context error), 32 watcher goroutine leaked, 64 data ready "
+                "but the operation does not return; the configuration holds kind, operations, 77, then the scheduling decisions")
+
+
 class C09(SeqCheck):
     pid = "C09"
     diff_is_violation = True
@@ -634,6 +692,6 @@ class C16(SeqCheck):
         return any(x.startswith("1") for x in o) and any(x.startswith("0") for x in o)
 
 
-REGISTRY = {"C02": C02, "C03": C03, "C04": C04, "C05": C05, "C06": C06, "C07": C07, "C08": C08, "C09": C09, "C10": C10, "C11": C11, "C12": C12, "C13": C13, "C14": C14, "C15": C15, "C16": C16, "C18": C18, "C20": C20}
+REGISTRY = {"C02": C02, "C03": C03, "C04": C04, "C05": C05, "C06": C06, "C07": C07, "C08": C08, "C09": C09, "C10": C10, "C11": C11, "C12": C12, "C13": C13, "C14": C14, "C15": C15, "C16": C16, "C17": C17, "C18": C18, "C20": C20}
 
 NOT_CLAIMED = {}
